@@ -31,7 +31,7 @@ from asl.cfg import Node, cfg_of
 from asl.flow import reaching
 from asl.loader import AnalysisError, Unit, norm, own_nodes
 from asl.values import USERISH, atoms_deep
-from .common import real_units, raised_class
+from .common import make_resolver, name_value, raised_class, real_units, uncast
 
 LEVEL = {
     "decided": "C02 (necessary clauses): (R02.1) min/max replace the incumbent only on a strict comparison in the "
@@ -436,17 +436,62 @@ def r02_5(ctx) -> None:
            (isinstance(n, ast.Subscript) and isinstance(n.slice, ast.Slice) and n.slice.step is not None)]
     ctx.check(not bad, "R02.5", u, bad[0] if bad else "sorted", "the result is never reversed after sorting "
               "(that would reverse equal elements as well)")
-    keyed = [s for s in sorts if any(k.arg == "key" for k in s.keywords)]
-    decorated = [n for n in own_nodes(node) if isinstance(n, ast.ListComp) and isinstance(n.elt, ast.Tuple) and len(n.elt.elts) == 2]
-    if decorated:
-        ok = len(keyed) >= 1
-        for s in keyed:
-            k = [kw.value for kw in s.keywords if kw.arg == "key"][0]
-            ok = ok and isinstance(k, ast.Lambda) and isinstance(k.body, ast.Subscript) and norm(k.body.slice) == "0"
-        ctx.check(ok, "R02.5", u, keyed[0] if keyed else decorated[0],
-                  "the decorated (key, item) pairs are sorted by the key component only: items are never compared")
-        first = decorated[0].elt.elts[0]
-        ctx.check(isinstance(first, ast.Await), "R02.5", u, decorated[0], "the key of each item is computed once (awaited) up front")
+    # decorate-sort-undecorate: whenever the sorted elements are tuples around the items, the
+    # sort key selects exactly the pre-computed key component, so items are never compared
+    # and the stable sort keeps equal keys in input order whatever ``reverse`` is
+    cfg = cfg_of(u)
+    for s in sorts:
+        subject = s.func.value if isinstance(s.func, ast.Attribute) and s.func.attr == "sort" else (s.args[0] if s.args else None)
+        comp = _tuple_comprehension(ctx, u, cfg, s, subject)
+        if comp is None:
+            continue
+        ctx.count("decorated_sorts")
+        key_pos = [i for i, e in enumerate(comp.elt.elts) if isinstance(e, ast.Await)]
+        ctx.check(len(key_pos) == 1, "R02.5", u, comp, "the key of each item is computed once (awaited) up front")
+        kw = [k.value for k in s.keywords if k.arg == "key"]
+        sel = _projection_index(ctx, u, cfg, s, kw[0]) if kw else None
+        ctx.check(bool(key_pos) and sel == key_pos[0], "R02.5", u, s,
+                  "the decorated (key, item) tuples are sorted by the key component only: items (and positions) are "
+                  "never compared, so ties keep input order in both directions",
+                  witness=f"tuple arity {len(comp.elt.elts)}, key component {key_pos}, sort key selects {sel}")
+
+
+def _tuple_comprehension(ctx, u, cfg, call, subject, depth=0):
+    """The list comprehension of tuples that produced the list being sorted, if any."""
+    subject = uncast(subject)
+    if isinstance(subject, ast.ListComp):
+        return subject if isinstance(subject.elt, ast.Tuple) and len(subject.elt.elts) >= 2 else None
+    if isinstance(subject, ast.Name) and depth < 3:
+        node = next((n for n in cfg.nodes if n.ast is not None and any(x is call for x in ast.walk(n.ast)) and not n.tag), None)
+        if node is None:
+            return None
+        v = name_value(ctx, u, cfg, node, subject.id)
+        return _tuple_comprehension(ctx, u, cfg, call, v, depth + 1) if v is not None else None
+    return None
+
+
+def _projection_index(ctx, u, cfg, call, key, depth=0):
+    """i when ``key`` is a pure projection ``lambda t: t[i]`` / ``operator.itemgetter(i)``
+    (possibly through a local or module-level name)."""
+    key = uncast(key)
+    if isinstance(key, ast.Lambda) and len(key.args.args) == 1 and isinstance(key.body, ast.Subscript) \
+            and isinstance(key.body.value, ast.Name) and key.body.value.id == key.args.args[0].arg \
+            and isinstance(key.body.slice, ast.Constant) and isinstance(key.body.slice.value, int):
+        return key.body.slice.value
+    if isinstance(key, ast.Call) and len(key.args) == 1 and not key.keywords \
+            and isinstance(key.args[0], ast.Constant) and isinstance(key.args[0].value, int):
+        r = ctx.pkg.resolve_expr_global(u.module, key.func)
+        if r.kind == "stdlib" and r.qual in ("operator.itemgetter", "_operator.itemgetter"):
+            return key.args[0].value
+    if isinstance(key, ast.Name) and depth < 3:
+        sym = u.module.symbols.get(key.id)
+        if sym is not None and sym[0] == "assign":
+            return _projection_index(ctx, u, cfg, call, sym[1], depth + 1)
+        node = next((n for n in cfg.nodes if n.ast is not None and any(x is call for x in ast.walk(n.ast)) and not n.tag), None)
+        v = name_value(ctx, u, cfg, node, key.id) if node is not None else None
+        if v is not None:
+            return _projection_index(ctx, u, cfg, call, v, depth + 1)
+    return None
 
 
 # --------------------------------------------------------------------------- R02.6
@@ -482,7 +527,7 @@ def r02_6(ctx) -> None:
     initial = [p for p in u.param_names() if p == "initial"]
     if acc is not None:
         for s_ in cfg.nodes:
-            if s_.kind == "store" and not s_.tag and not any(k == "loop" for (k, _a) in s_.regions) \
+            if s_.kind == "store" and not s_.tag and not s_.in_loop() \
                     and any(isinstance(t, ast.Name) and t.id == acc for t in s_.info.get("targets", [])):
                 v = s_.info.get("value")
                 for part in ([v.body, v.orelse] if isinstance(v, ast.IfExp) else [v]):
